@@ -93,11 +93,11 @@ fn check_visited(exp: &Exp, seen: &Exp) {
 
 // ---- leaves: the cheapest value of each child kind, carrying a tag ---------------------------------
 fn mk_expr(t: u32) -> Expr<u32> {
-    Expr::Constant(ExprConstant { range: t, value: Constant::None, kind: None })
+    Expr::Name(ExprName { range: t, id: Identifier::new(""), ctx: ExprContext::Load })
 }
 fn tag_expr(e: &Expr<u32>) -> u32 {
     match e {
-        Expr::Constant(c) => c.range,
+        Expr::Name(c) => c.range,
         _ => 0,
     }
 }
@@ -214,7 +214,7 @@ impl RecFolder {
 }
 macro_rules! rec_fold {
     ($m:ident, $t:ident, $k:expr, $tag:ident) => {
-        fn $m(&mut self, node: $t<u32>) -> Result<$t<u32>, ()> {
+        fn $m(&mut self, node: $t<u32>) -> Result<$t<u32>, std::convert::Infallible> {
             self.seen.push($k, $tag(&node));
             Ok(node)
         }
@@ -222,10 +222,10 @@ macro_rules! rec_fold {
 }
 impl crate::fold::Fold<u32> for RecFolder {
     type TargetU = u32;
-    type Error = ();
+    type Error = std::convert::Infallible;
     type UserContext = ();
     fn will_map_user(&mut self, _u: &u32) {}
-    fn map_user(&mut self, u: u32, _c: ()) -> Result<u32, ()> {
+    fn map_user(&mut self, u: u32, _c: ()) -> Result<u32, std::convert::Infallible> {
         self.seen.push(0, u);
         Ok(u)
     }
@@ -279,21 +279,41 @@ impl crate::Visitor<u32> for RecVisitor {
 }
 
 // ---- O1: constant-tuple optimiser ------------------------------------------------------------------
-// @verif name=ast_optimizer_tuple props=C12 tier=quick features=constant-optimization fns="ConstantOptimizer::fold_expr"
-//   bound="tuples of 0..2 elements, each a constant or a name leaf, every expression context; second application is the identity"
+// @verif name=ast_optimizer_tuple0 props=C12 tier=quick features=constant-optimization fns="ConstantOptimizer::fold_expr"
+//   bound="the empty tuple in every expression context (Load, Store, Del); symbolic range tag"
 #[cfg(feature = "constant-optimization")]
 #[kani::proof]
 #[kani::unwind(8)]
-fn ast_optimizer_tuple() {
+fn ast_optimizer_tuple0() {
+    check_optimizer(0);
+}
+// @verif name=ast_optimizer_tuple1 props=C12 tier=thorough timeout=2400 features=constant-optimization fns="ConstantOptimizer::fold_expr"
+//   bound="1-tuples whose element is a constant or a name, every expression context; symbolic range tags"
+#[cfg(feature = "constant-optimization")]
+#[kani::proof]
+#[kani::unwind(8)]
+fn ast_optimizer_tuple1() {
+    check_optimizer(1);
+}
+// @verif name=ast_optimizer_tuple2 props=C12 tier=thorough timeout=2400 features=constant-optimization fns="ConstantOptimizer::fold_expr"
+//   bound="2-tuples whose elements are constants or names, every expression context; symbolic range tags"
+#[cfg(feature = "constant-optimization")]
+#[kani::proof]
+#[kani::unwind(8)]
+fn ast_optimizer_tuple2() {
+    check_optimizer(2);
+}
+#[cfg(feature = "constant-optimization")]
+fn check_optimizer(n: usize) {
     use crate::fold::Fold;
-    for n in 0..3usize {
+    {
         for ctx_id in 0..3u8 {
             let base = any_base();
             let c0: bool = kani::any();
             let c1: bool = kani::any();
             let leaf = |is_const: bool, t: u32| -> Expr<u32> {
                 if is_const {
-                    mk_expr(t)
+                    Expr::Constant(ExprConstant { range: t, value: Constant::None, kind: None })
                 } else {
                     Expr::Name(ExprName { range: t, id: Identifier::new(""), ctx: ExprContext::Load })
                 }
@@ -326,7 +346,7 @@ fn ast_optimizer_tuple() {
                         Constant::Tuple(v) => assert!(v.len() == n),
                         _ => assert!(false, "tuple constant expected"),
                     }
-                    kani::cover!(n == 2, "pair folded");
+                    kani::cover!(true, "tuple folded to a constant");
                 }
                 Expr::Tuple(t) => {
                     assert!(!(ctx_id == 0 && all_const));
@@ -338,7 +358,7 @@ fn ast_optimizer_tuple() {
                     if n >= 2 {
                         assert!(match &t.elts[1] { Expr::Constant(c) => c1 && c.range == base + 2, Expr::Name(x) => !c1 && x.range == base + 2, _ => false });
                     }
-                    kani::cover!(ctx_id == 1 && n == 0, "empty store tuple kept");
+                    kani::cover!(ctx_id == 1, "store tuple kept");
                 }
                 _ => assert!(false, "tuple or constant expected"),
             }
